@@ -221,9 +221,15 @@ def on_exit(server): _ev("on_exit")
 
 
 class Server:
+    # directory the master is started in (its START_CTX['cwd'], where a USR2 re-exec goes back to); None = the scratch
+    # directory self.dir. Set it on the instance before start(); everything else (launcher, config, logs) stays in self.dir
+    start_cwd = None
+
     def __init__(self, tag, worker_class="sync", workers=1, settings=None, bind="tcp", conf_extra="",
-                 env=None, app_source=None, argv_extra=None):
+                 env=None, app_source=None, argv_extra=None, default_conf=False):
         become_subreaper()
+        # default_conf: no -c option; the master finds ./gunicorn.conf.py in the directory it is started in (the scratch directory)
+        self.default_conf = default_conf
         self.dir = common.scratch_dir(tag)
         os.chmod(self.dir, 0o755)
         self.worker_class = worker_class
@@ -292,8 +298,9 @@ class Server:
         launcher = os.path.join(self.dir, "gunicorn_launcher.py")
         with open(launcher, "w") as f:
             f.write("import sys\nfrom gunicorn.app.wsgiapp import run\nif __name__ == '__main__':\n    sys.exit(run())\n")
-        self.proc = subprocess.Popen([common.PY, launcher, "-c", self.conf_path] + self.argv_extra + ["vapp:app"],
-                                     cwd=self.dir, env=env, stdout=open(self.stderr_path, "ab"),
+        self.proc = subprocess.Popen([common.PY, launcher] + ([] if self.default_conf else ["-c", self.conf_path]) +
+                                     self.argv_extra + ["vapp:app"],
+                                     cwd=self.start_cwd or self.dir, env=env, stdout=open(self.stderr_path, "ab"),
                                      stderr=subprocess.STDOUT, start_new_session=True)
         self.master_pid = self.proc.pid
         self.sid = self.master_pid
